@@ -488,6 +488,59 @@ def run_float32(case):
   err = core.relerr(nod[..., :cfg['nlon'], :cfg['nlat']], want, scale=max(1.0, float(np.abs(want).max())))
   if err > 3e-4:
     return out.fail(what='float32 synthesis differs from the float64 oracle by more than 3e-4', relerr=err)
+  # history: the *same* Grid object is now used in double precision (x64 is on again outside the context). Nothing
+  # cached on the grid during the float32 phase may limit the accuracy of the float64 phase.
+  x64 = x.astype(np.float64)
+  nod64 = np.asarray(g.to_nodal(x64))
+  y64 = np.asarray(g.to_modal(nod64))
+  out.units += 3
+  if nod64.dtype != np.float64 or y64.dtype != np.float64:
+    return out.fail(what='float64 input on a grid first used in float32 did not give float64 output',
+                    nodal=str(nod64.dtype), modal=str(y64.dtype))
+  err = core.relerr(y64, x64, scale=max(1.0, float(np.abs(nod64).max())))
+  if err > 1e-9:
+    return out.fail(what='float64 round trip on a Grid object first used in float32 mode is not exact to rounding',
+                    relerr=err, index=core.argmax_index(y64, x64))
+  err = core.relerr(nod64[..., :cfg['nlon'], :cfg['nlat']], want, scale=max(1.0, float(np.abs(want).max())))
+  if err > 1e-9:
+    return out.fail(what='float64 synthesis on a Grid object first used in float32 mode differs from the oracle',
+                    relerr=err)
+  return out
+
+
+# ----------------------------------------------------------------------------
+# associated Legendre values at orders beyond any affordable transform (numpy level, a few nodes)
+
+
+def _legendre_cases(tier):
+  sizes = [(3, 4), (33, 34), (130, 131), (257, 259), (300, 300), (520, 522)]
+  if tier == 'thorough':
+    sizes += [(600, 640), (640, 645)]   # scipy's normalised recurrence returns NaN from degree 646 on
+  return [{'n_m': m, 'n_l': l, 'seed': k} for (m, l) in sizes for k in range(2)]
+
+
+def run_legendre_values(case):
+  import scipy.special as sps
+  from dinosaur import associated_legendre
+  rng = np.random.default_rng([case['seed'], case['n_m']])
+  x = np.concatenate([np.sort(rng.uniform(-0.98, 0.98, size=5)), [0.0, 0.3]])
+  n_m, n_l = case['n_m'], case['n_l']
+  p = np.asarray(associated_legendre.evaluate(n_m=n_m, n_l=n_l, x=x))     # [m, node, l]
+  out = Outcome(units=n_m * n_l, labels=[f'n_m={n_m}'], nontrivial=n_m >= 3)
+  if p.shape != (n_m, len(x), n_l):
+    return out.fail(what='associated_legendre.evaluate returned an unexpected shape', shape=list(p.shape))
+  l = np.arange(n_l)[:, None, None]
+  m = np.arange(n_m)[None, :, None]
+  ref = np.asarray(sps.assoc_legendre_p(l, m, x[None, None, :], norm=True))[0]
+  ref = np.where(m <= l, ref, 0.0)                       # [l, m, node]
+  ref = np.transpose(ref, (1, 2, 0))                     # [m, node, l]
+  # scipy's norm=True basis has unit L2 norm on [-1, 1] like the code's (measured identical up to L = 256)
+  err = np.abs(p - ref)
+  tol = 1e-9 * np.maximum(1.0, np.abs(ref)) + 1e-200
+  if not np.all(err <= tol):
+    mi, ji, li = (int(v) for v in np.unravel_index(int(np.argmax(err - tol)), err.shape))
+    return out.fail(what='associated Legendre value differs from scipy', m=mi, l=li, x=float(x[ji]),
+                    got=float(p[mi, ji, li]), want=float(ref[mi, ji, li]))
   return out
 
 
@@ -526,5 +579,10 @@ SUBCHECKS = [
              examples={'quick': 10, 'thorough': 150}, shards={'quick': 1, 'thorough': 4},
              wall={'quick': 300.0, 'thorough': 900.0}, weight=1,
              rule='non-trivial = L >= 3',
-             doc='float32 inputs with x64 disabled: round trip and synthesis within 3e-4'),
+             doc='float32 inputs with x64 disabled: round trip and synthesis within 3e-4; then the same Grid object '
+                 'in float64: exact to rounding (nothing cached in the float32 phase limits accuracy)'),
+    Subcheck('legendre_values_large_orders', run_legendre_values, cases=_legendre_cases,
+             shards={'quick': 2, 'thorough': 4}, wall={'quick': 300.0, 'thorough': 1500.0}, weight=1,
+             rule='non-trivial = at least 3 orders',
+             doc='associated_legendre.evaluate at a few nodes for up to 520 (thorough 1025) orders == scipy, every (m, l)'),
 ]
